@@ -7,6 +7,7 @@ import cxx2coq
 
 SS = "src/CppUTest/SimpleString.cpp"
 MLD = "src/CppUTest/MemoryLeakDetector.cpp"
+C07_TRACE = ["startChecking", "stopChecking", "totalMemoryLeaks", "report", "addFailure", "print", "markCheckingPeriodLeaksAsNonCheckingPeriod"]
 GROUPS = {
     'C13': [       {'coq': 'leaf_isDigit', 'file': 'src/CppUTest/SimpleString.cpp', 'name': 'SimpleString::isDigit'},
         {'coq': 'leaf_isSpace', 'file': 'src/CppUTest/SimpleString.cpp', 'name': 'SimpleString::isSpace'},
@@ -52,6 +53,14 @@ GROUPS = {
                 'file': 'src/CppUTest/TestFilter.cpp',
                 'name': 'TestFilter::match',
                 'param_types': {'name': 'list N', 'this_filter_': 'list N'}}],
+    "C07": [dict(file="src/CppUTest/MemoryLeakWarningPlugin.cpp", name="MemoryLeakWarningPlugin::preTestAction", coq="leaf_preTestAction", mode="state",
+                 trace=C07_TRACE, calls={"getFailureCount": "result_failureCount"}, extra_params=["result_failureCount"]),
+            dict(file="src/CppUTest/MemoryLeakWarningPlugin.cpp", name="MemoryLeakWarningPlugin::postTestAction", coq="leaf_postTestAction", mode="state",
+                 trace=C07_TRACE, enums=["MemLeakPeriod"],
+                 calls={"getFailureCount": "result_failureCount", "totalMemoryLeaks": "leaks_checking", "areNewDeleteOverloaded": "overloaded"},
+                 extra_params=["result_failureCount", "leaks_checking", "overloaded"]),
+            dict(file="src/CppUTest/MemoryLeakWarningPlugin.cpp", name="MemoryLeakWarningPlugin::FinalReport", coq="leaf_FinalReport", mode="state",
+                 trace=C07_TRACE, enums=["MemLeakPeriod"], calls={"totalMemoryLeaks": "leaks_enabled"}, extra_params=["leaks_enabled"], ret_flag=True)],
     "C03": [dict(file="src/CppUTest/Utest.cpp", name="doubles_equal", coq="leaf_doubles_equal",
                  calls={"PlatformSpecificIsNan": "b2z (d_is_nan {0})", "PlatformSpecificIsInf": "b2z (d_is_inf {0})",
                         "PlatformSpecificFabs": "d_abs {0}"})],
